@@ -61,7 +61,7 @@ def reference_window(win, psll, L):
 
 # ------------------------------------------------------------------ records
 
-RECIPES = ["noise", "noise", "sine+noise", "trend+noise", "offset+noise", "multisine", "impulses", "const", "zeros", "randwalk"]
+RECIPES = ["noise", "noise", "sine+noise", "trend+noise", "offset+noise", "multisine", "impulses", "const", "zeros", "randwalk", "line+floor", "steepred"]
 
 
 def gen_data_spec(rw, N, channels, recipes=None):
@@ -165,6 +165,20 @@ def gen_config(rw, N, *, backends=("numba",), allow_custom=True, allow_band=True
         lo = rw.uniform(0.0, 0.3) * fs
         hi = lo + rw.uniform(0.01, 0.4) * fs
         cfg["band"] = [round(lo, 6), round(hi, 6)]
+    return cfg
+
+
+def make_big_plan(rw, cfg):
+    """Turn a configuration into one whose plan has hundreds of bins (block / batch thresholds inside the library)."""
+    cfg["scheduler"] = rw.choice(["ltf", "lpsd", "vectorized_ltf"])
+    cfg.pop("custom_plan", None)
+    cfg["Jdes"] = rw.choice([300, 420, 600, 900])
+    cfg["Kdes"] = rw.choice([2, 5, 10])
+    cfg["Lmin"] = 1
+    cfg["bmin"] = 1.0
+    cfg["band"] = None
+    cfg["force_target_nf"] = False
+    cfg["olap"] = rw.choice(["default", 0.5])
     return cfg
 
 
